@@ -311,10 +311,46 @@ unsigned verif_batch(unsigned dflt)
 	return hr_batch ? 1 + (unsigned)vrng_below(hr_batch) : dflt;
 }
 
+/* classification of an exhausted step budget:
+ *  - "hang":    no trace event at all for a long time (threads only spin): deadlock / livelock in runtime code;
+ *  - "nonterm": the run keeps making progress although the termination condition of property C08 (every LP of this rank has its
+ *               predicate true on a committed state, by the ledger above) has held for a long time: the protocol does not end it;
+ *  - "budget":  still making progress, termination condition not (long) established: inconclusive, the budget was too small. */
+static uint64_t last_event_step, term_ready_step;
+static int term_ready;
+static void term_ready_check(void)
+{
+	if(term_ready || global_config.termination_time < 1e18)
+		return;
+	uint64_t g = UINT64_MAX;
+	for(unsigned r = 0; r < global_config.n_threads && r < VS_MAXT; ++r)
+		if(th_gvt[r] < g)
+			g = th_gvt[r];
+	for(uint64_t l = 0; l < n_lps_node && l < MAXLP; ++l) {
+		if(lg_committed_true[l])
+			continue;
+		if(lg_overflow[l] || !lg[l])
+			return;
+		int ok = 0;
+		for(uint64_t k = 0; k < LG_MAX && !ok; ++k)
+			ok = lg[l][k].used && lg[l][k].pred && lg[l][k].tq < g;
+		if(!ok)
+			return;
+	}
+	if(n_lps_node > MAXLP)
+		return;
+	term_ready = 1;
+	term_ready_step = vs_steps;
+}
+
 void verif_trace(unsigned kind, uint64_t a, uint64_t b, uint64_t c)
 {
 	if(kind < 40)
 		n_ev[kind]++;
+	if(kind != VK_NODE_PHASE)
+		last_event_step = vs_steps;
+	if(kind == VK_GVT)
+		term_ready_check();
 	if(!mode_par && !mode_dist)
 		return;
 	unsigned r = rid;
@@ -651,7 +687,13 @@ static void on_hang(void)
 	fputc('\n', f_c);
 	fflush(f_ops);
 	fflush(f_c);
-	print_stats("hang");
+	uint64_t idle = vs_steps - last_event_step;
+	if(idle >= 60000 || idle * 4 >= vs_steps)
+		print_stats("hang");
+	else if(term_ready && vs_steps - term_ready_step >= 300000 && vs_steps - term_ready_step >= 2 * term_ready_step)
+		print_stats("nonterm");
+	else
+		print_stats("budget");
 	_exit(3);
 }
 
